@@ -151,6 +151,10 @@ func (g *Gen) readSchedule(docLen int) []int {
 
 func genC13(g *Gen) {
 	g.sizeSweep("csv")
+	g.arrangedFrames("csv arranged", func(f int) {
+		g.do(Step{Op: "ToCSV", Recv: f})
+		g.do(Step{Op: "ToCSV", Recv: f, Csv: &CsvConf{WriteCols: bsList([]string{"P", "S", "I", "F", "B", "E", "X"})}})
+	})
 	sizes := []int{0, 1, 2, 3, 6, 12, 30, 90}
 	if g.thorough() {
 		sizes = append(sizes, 300, 1200)
@@ -194,6 +198,11 @@ func genC13(g *Gen) {
 
 func genC14(g *Gen) {
 	g.sizeSweep("json")
+	g.arrangedFrames("json arranged", func(f int) {
+		g.do(Step{Op: "ToJSON", Recv: f})
+		nn := g.do(Step{Op: "Drop", Recv: f, Cols: bsList([]string{"F"})}) // NaN has no JSON form to return from
+		g.do(Step{Op: "ReadJSON", Other: nn + 1, Reads: g.readSchedule(0)})
+	})
 	sizes := []int{0, 1, 2, 3, 6, 12, 30}
 	if g.thorough() {
 		sizes = append(sizes, 100, 300)
@@ -478,6 +487,26 @@ func genC09(g *Gen) {
 	}
 	g.enumUpperFamilies()
 	g.indexArrangements()
+	g.arrangedFrames("observers arranged", func(f int) {
+		g.do(Step{Op: "String", Recv: f})
+		g.do(Step{Op: "ToCSV", Recv: f})
+		g.do(Step{Op: "ToJSON", Recv: f})
+		for _, c := range []string{"I", "F", "B", "S", "E", "X"} {
+			g.do(Step{Op: "View", Recv: f, Dst: toBS(c)})
+		}
+		rb := g.do(Step{Op: "Rebuild", Recv: f})
+		g.do(Step{Op: "Equals", Recv: f, Other: rb})
+		g.do(Step{Op: "Equals", Recv: rb, Other: f})
+		for _, c := range []string{"I", "F", "B", "S", "E"} { // column by column: each type has its own Equals
+			a := g.do(Step{Op: "Select", Recv: f, Cols: bsList([]string{c})})
+			b := g.do(Step{Op: "Select", Recv: rb, Cols: bsList([]string{c})})
+			g.do(Step{Op: "Equals", Recv: a, Other: b})
+			g.do(Step{Op: "Equals", Recv: b, Other: a})
+		}
+		g.do(Step{Op: "SliceObs", Recv: -1, A: 1})
+		g.do(Step{Op: "Select", Recv: f, Cols: bsList([]string{"F", "I", "B"})})
+		g.do(Step{Op: "SliceObs", Recv: -1, A: 0})
+	})
 	colsets := []string{"ABF", "AFTSE", "SREX", "FS", "ATE", "FGX"}
 	sizes := []int{0, 1, 2, 3, 5, 8, 13, 51, 60}
 	for rep := 0; rep < g.pick(40, 900); rep++ {
